@@ -133,6 +133,26 @@ PROPS = {
         "open_statements": ["multipart, JSON and XML bodies (C03_json_flatten_partial) are not modelled yet",
                             "arguments beyond SecArgumentsLimit are dropped with only a debug log (F-C03-1, design decision: see known_findings.json)"],
     },
+    "C18": {
+        "engines": [{"name": "http", "quick": 40000, "thorough": 1500000, "shards": 8}],
+        "nontrivial": lambda l, v: "inv=0" in l or "status=40" in l or "status=50" in l,
+        "rule": "http: WrapHandler around scripted handlers (optional WriteHeader with 200/201/404/500/204/101/302, Write chunks "
+                "sized around the response body limit, Flush, or nothing) behind httptest's recorder; response body access on/"
+                "off, Content-Type inside/outside SecResponseBodyMimeType, limit 1-20 with Reject/ProcessPartial; rules that deny "
+                "in phase 1 (with and without status), redirect, drop, deny in phase 2, deny in phase 3 on status 404 or a "
+                "response header, deny in phase 4 on body content; request bodies of 0-39 bytes against a 16-byte request limit. "
+                "Compared: handler invoked, bytes the handler read, client status and body, flushed. Non-trivial = something "
+                "was blocked.",
+        "modelled": "modelled and proved: http/interceptor.go rwInterceptor (WriteHeader, Write, Flush, "
+                    "writeBufferedResponseBodyToDownstream, response processor), obtainStatusCodeFromInterruptionOrDefault, the "
+                    "request-body splice of processRequest, over the response side of the transaction (ProcessResponseHeaders, "
+                    "WriteResponseBody, ProcessResponseBody) with the rules' decisions as parameters. net/http itself, ReadFrom "
+                    "(= io.Copy through Write), Hijack/Push are not modelled.",
+        "assumptions": ["the downstream ResponseWriter records WriteHeader/Write calls in order (httptest.ResponseRecorder)"],
+        "open_statements": ["C18_passthrough for buffered bodies (ProcessPartial / below the limit) is tied by correspondence only; "
+                            "the unbuffered case is proved (C18_passthrough_unbuffered)",
+                            "F-C18-1: a request-phase redirect or drop is answered with 200 (open finding)"],
+    },
     "C09": {
         "engines": [_eng("acct", 25000, 800000), _eng("", 10000, 300000)],
         "nontrivial": _eng_nontrivial, "rule": _ENG_RULE + "Profile `acct`: more setvar (+N, -N, assign, delete, macro keys/values), chains, multiMatch.",
